@@ -429,20 +429,20 @@ class Check(core.PropertyCheck):
         gz1 = E("gz", P1)
         wire = {("gzip", gz1, False), ("gzip", E("gz", P1, "trunc"), False), ("-", P1, False), ("gzip", J1, True),
                 ("unknown", P1, False)}
-        fcalls = {("enc", "gzip", P1), ("dec", "gzip", E("gz", P1, "alt"))}
+        fcalls = {("enc", "gzip", P1), ("dec", "gzip", E("gz", P1, "alt")), ("dec", "br", gz1)}
         margs = {"gzip", "unknown"}
         sargs = {P0, P1}
         if tier != "quick":
             wire |= {("gzip", E("zl", P1), False), ("br", E("br", P1), False), ("GZip", E("gz", P1, "alt"), False),
                      ("deflate", E("zl", P1, "raw"), False), ("gzip", P0, False), ("zstd", E("zs", P2), False),
                      ("utf8", P1, False), ("deflateraw", E("zl", P1), False)}
-            fcalls |= {("dec", "br", gz1), ("enc", "GZip", P1), ("enc", "deflateraw", P1), ("dec", "deflate", E("zl", P1)),
+            fcalls |= {("enc", "GZip", P1), ("enc", "deflateraw", P1), ("dec", "deflate", E("zl", P1)),
                        ("dec", "gzip", E("gz", P1, "trunc")), ("enc", "br", P2), ("dec", "none", P1)}
             margs |= {"br", "GZip", "zstd", "utf8", "identity"}
             sargs |= {P2, gz1}
         return {"NMsg": 2, "MaxDepth": 2, "CK": ck, "RF": rf, "LC": lc,
                 "WireSet": frozenset(wire), "SetArgs": frozenset(sargs), "MCodings": frozenset(margs),
-                "FCalls": frozenset(fcalls), "MaxOps": int(__import__("os").environ.get("C31_MAXOPS", 4))}
+                "FCalls": frozenset(fcalls), "MaxOps": 4}
 
     def setup(self, ctx):
         # the concretisation must be injective on the universe (ids are equalities of byte strings)
@@ -462,9 +462,11 @@ class Check(core.PropertyCheck):
     def model_runs(self, ctx):
         if ctx.quick:
             return [ctx.model_check(self.MODEL, self.model_constants("quick"), dump=True)]
-        big = ctx.model_check(self.MODEL, self.model_constants("thorough"), dump=False, tag="_big")
+        # thorough: dumped graph = full tables with three calls; exhaustive statistics for five calls on the quick
+        # tables; simulated behaviours of up to six calls on the full tables
         small = ctx.model_check(self.MODEL, {**self.model_constants("thorough"), "MaxOps": 3}, dump=True)
-        self._sim = ctx.simulate(self.MODEL, self.model_constants("thorough"), num=3000, depth=6)[0]
+        big = ctx.model_check(self.MODEL, {**self.model_constants("quick"), "MaxOps": 5}, dump=False, tag="_big")
+        self._sim = ctx.simulate(self.MODEL, {**self.model_constants("thorough"), "MaxOps": 6}, num=3000, depth=8)[0]
         return [small, big]
 
     @staticmethod
@@ -491,7 +493,9 @@ class Check(core.PropertyCheck):
         if ctx.quick:
             behs = g.random_walks(ctx.rng, 2500, 6)
         else:
-            behs = g.edge_cover(ctx.rng, max_len=8, tail=0) + getattr(self, "_sim", [])
+            behs = g.edge_cover(ctx.rng, max_len=8, tail=0)
+            ctx.rng.shuffle(behs)
+            behs = behs[:12000] + getattr(self, "_sim", [])
         seen = set()
         n = 0
         for b in behs:
